@@ -142,6 +142,7 @@ def install_dispatch_pool():
 
         def __new__(cls, *args, **kwargs):
             CONSTRUCTED[0] += 1
+            reap_real_pools()
             factory = POOL_FACTORY[0]
             if factory is not None:
                 return factory(*args, **kwargs)
@@ -149,6 +150,7 @@ def install_dispatch_pool():
             # Python will not run __init__ for us: do it here.
             obj = real.__new__(real)
             real.__init__(obj, *args, **kwargs)
+            REAL_POOLS.append(obj)
             return obj
 
     mpp.ThreadPool = DispatchThreadPool
@@ -157,6 +159,24 @@ def install_dispatch_pool():
 
 POOL_FACTORY = [None]
 CONSTRUCTED = [0]
+REAL_POOLS = []
+
+
+def reap_real_pools():
+    """Terminate and join, IN THE CALLING (main) THREAD, every real ThreadPool the library created earlier.
+
+    The library only close()s its pool. When an evaluation was aborted by an exception the pool object can end up
+    being garbage-collected inside one of its own dying worker threads; its finalizer then joins the other workers
+    while holding threading's _active_limbo_lock - a CPython-level deadlock (seen as a hanging DetPool.map whose
+    Thread.start() never returned). Keeping a reference here and reaping before the next pool is created, and after
+    every aborted evaluation, takes that out of the harness's way."""
+    while REAL_POOLS:
+        p = REAL_POOLS.pop()
+        try:
+            p.terminate()
+            p.join()
+        except Exception:
+            pass
 
 
 def real_threadpool():
